@@ -286,6 +286,35 @@ def m_to_ascii_lowercase(ex, st, args, dest_ty, fname):
     return c + 32 if 65 <= c <= 90 else c
 
 
+def _char_pred(ranges):
+    """char predicate given as inclusive code point ranges."""
+    def f(ex, st, args, dest_ty, fname):
+        c = ex.deref(args[0], st) if isinstance(args[0], tuple) and args[0] and args[0][0] in ("ref", "refval") else args[0]
+        if is_sym(c):
+            return z3.simplify(z3.Or(*[(c == a) if a == b else z3.And(c >= a, c <= b) for a, b in ranges]))
+        return any(a <= c <= b for a, b in ranges)
+    return f
+
+
+CHAR_PREDICATES = {
+    "is_ascii_whitespace": [(0x20, 0x20), (0x09, 0x0A), (0x0C, 0x0D)],
+    "is_ascii_digit": [(0x30, 0x39)],
+    "is_ascii_hexdigit": [(0x30, 0x39), (0x41, 0x46), (0x61, 0x66)],
+    "is_ascii_alphabetic": [(0x41, 0x5A), (0x61, 0x7A)],
+    "is_ascii_alphanumeric": [(0x30, 0x39), (0x41, 0x5A), (0x61, 0x7A)],
+    "is_ascii_uppercase": [(0x41, 0x5A)],
+    "is_ascii_lowercase": [(0x61, 0x7A)],
+    "is_ascii_punctuation": [(0x21, 0x2F), (0x3A, 0x40), (0x5B, 0x60), (0x7B, 0x7E)],
+    "is_ascii_graphic": [(0x21, 0x7E)],
+    "is_ascii_control": [(0x00, 0x1F), (0x7F, 0x7F)],
+    "is_ascii": [(0x00, 0x7F)],
+    # Unicode White_Space (char::is_whitespace)
+    "is_whitespace": [(0x09, 0x0D), (0x20, 0x20), (0x85, 0x85), (0xA0, 0xA0), (0x1680, 0x1680), (0x2000, 0x200A), (0x2028, 0x2029), (0x202F, 0x202F), (0x205F, 0x205F), (0x3000, 0x3000)],
+    # Unicode Cc (char::is_control)
+    "is_control": [(0x00, 0x1F), (0x7F, 0x9F)],
+}
+
+
 def m_str_index_range(ex, st, args, dest_ty, fname):
     """<str as Index<Range<usize>>>::index: byte offsets must fall on char boundaries (else panic)."""
     s = ex.deref(args[0], st)
@@ -321,6 +350,85 @@ def m_str_index_range(ex, st, args, dest_ty, fname):
     if bad is not False:
         cases.append((bad, Panic("byte index is not a char boundary / out of range in str slice")))
     return cases
+
+
+def _substr(s, i, j):
+    cs = str_chars(s)
+    return SymStr(getattr(s, "name", "s") + "[%d..%d]" % (i, j), tuple(cs[i:j])) if isinstance(s, SymStr) else ConcStr(s.s[i:j])
+
+
+def _simp(c):
+    if is_sym(c):
+        c = z3.simplify(c)
+        if z3.is_true(c):
+            return True
+        if z3.is_false(c):
+            return False
+    return bool(c) if not is_sym(c) else c
+
+
+def m_trim_end_matches_char(ex, st, args, dest_ty, fname):
+    """str::trim_end_matches(char): the longest prefix that does not end with the char."""
+    s = ex.deref(args[0], st)
+    cs = str_chars(s)
+    c = args[1]
+    cases = []
+    for j in range(len(cs), -1, -1):
+        cond = True
+        for k in range(j, len(cs)):
+            cond = b_and(cond, _simp(cs[k] == c))
+        if j > 0:
+            cond = b_and(cond, _simp(b_not(_simp(cs[j - 1] == c))))
+        cond = _simp(cond)
+        if cond is False:
+            continue
+        cases.append((cond, ("refval", _substr(s, 0, j))))
+        if cond is True:
+            break
+    return cases
+
+
+def m_trim_start_matches_char(ex, st, args, dest_ty, fname):
+    s = ex.deref(args[0], st)
+    cs = str_chars(s)
+    c = args[1]
+    cases = []
+    for j in range(0, len(cs) + 1):
+        cond = True
+        for k in range(0, j):
+            cond = b_and(cond, _simp(cs[k] == c))
+        if j < len(cs):
+            cond = b_and(cond, _simp(b_not(_simp(cs[j] == c))))
+        cond = _simp(cond)
+        if cond is False:
+            continue
+        cases.append((cond, ("refval", _substr(s, j, len(cs)))))
+        if cond is True:
+            break
+    return cases
+
+
+def m_ends_with_char(ex, st, args, dest_ty, fname):
+    cs = str_chars(ex.deref(args[0], st))
+    return _simp(cs[-1] == args[1]) if cs else False
+
+
+def m_starts_with_char(ex, st, args, dest_ty, fname):
+    cs = str_chars(ex.deref(args[0], st))
+    return _simp(cs[0] == args[1]) if cs else False
+
+
+def m_strip_suffix_char(ex, st, args, dest_ty, fname):
+    s = ex.deref(args[0], st)
+    cs = str_chars(s)
+    if not cs:
+        return NONE
+    c = _simp(cs[-1] == args[1])
+    if c is True:
+        return some(("refval", _substr(s, 0, len(cs) - 1)))
+    if c is False:
+        return NONE
+    return [(c, some(("refval", _substr(s, 0, len(cs) - 1)))), (b_not(c), NONE)]
 
 
 def m_len_utf8(ex, st, args, dest_ty, fname):
@@ -367,6 +475,19 @@ def M(pattern, fn):
 
 
 COMMON = [
+    M(r"^char::methods::<impl char>::is_ascii_whitespace$", _char_pred(CHAR_PREDICATES["is_ascii_whitespace"])),
+    M(r"^char::methods::<impl char>::is_ascii_digit$", _char_pred(CHAR_PREDICATES["is_ascii_digit"])),
+    M(r"^char::methods::<impl char>::is_ascii_hexdigit$", _char_pred(CHAR_PREDICATES["is_ascii_hexdigit"])),
+    M(r"^char::methods::<impl char>::is_ascii_alphabetic$", _char_pred(CHAR_PREDICATES["is_ascii_alphabetic"])),
+    M(r"^char::methods::<impl char>::is_ascii_alphanumeric$", _char_pred(CHAR_PREDICATES["is_ascii_alphanumeric"])),
+    M(r"^char::methods::<impl char>::is_ascii_uppercase$", _char_pred(CHAR_PREDICATES["is_ascii_uppercase"])),
+    M(r"^char::methods::<impl char>::is_ascii_lowercase$", _char_pred(CHAR_PREDICATES["is_ascii_lowercase"])),
+    M(r"^char::methods::<impl char>::is_ascii_punctuation$", _char_pred(CHAR_PREDICATES["is_ascii_punctuation"])),
+    M(r"^char::methods::<impl char>::is_ascii_graphic$", _char_pred(CHAR_PREDICATES["is_ascii_graphic"])),
+    M(r"^char::methods::<impl char>::is_ascii_control$", _char_pred(CHAR_PREDICATES["is_ascii_control"])),
+    M(r"^char::methods::<impl char>::is_ascii$", _char_pred(CHAR_PREDICATES["is_ascii"])),
+    M(r"^char::methods::<impl char>::is_whitespace$", _char_pred(CHAR_PREDICATES["is_whitespace"])),
+    M(r"^char::methods::<impl char>::is_control$", _char_pred(CHAR_PREDICATES["is_control"])),
     M(r"^core::str::<impl str>::parse::<i64>$", m_parse_i64),
     M(r"^Result::<i64, ParseIntError>::map_err::<\(\), ", m_map_err_unit),
     M(r"^<Chars<'_> as Iterator>::last$", m_chars_last),
@@ -374,6 +495,11 @@ COMMON = [
     M(r"^char::methods::<impl char>::to_ascii_uppercase$", m_to_ascii_uppercase),
     M(r"^char::methods::<impl char>::to_ascii_lowercase$", m_to_ascii_lowercase),
     M(r"^<str as Index<std::ops::Range<usize>>>::index$", m_str_index_range),
+    M(r"^core::str::<impl str>::trim_end_matches::<char>$", m_trim_end_matches_char),
+    M(r"^core::str::<impl str>::trim_start_matches::<char>$", m_trim_start_matches_char),
+    M(r"^core::str::<impl str>::ends_with::<char>$", m_ends_with_char),
+    M(r"^core::str::<impl str>::starts_with::<char>$", m_starts_with_char),
+    M(r"^core::str::<impl str>::strip_suffix::<char>$", m_strip_suffix_char),
     M(r"^char::methods::<impl char>::len_utf8$", m_len_utf8),
     M(r"^core::num::<impl i64>::checked_mul$", m_checked_mul_i64),
     M(r"^core::num::<impl i64>::checked_add$", m_checked_add_i64),
